@@ -507,6 +507,27 @@ func c18Downstream(c *Ctx) {
 		}
 		c.Check(good && n > 0, rule, "InitStore len("+pn+")", fn.Pos(), "stores are built only with len("+pn+") >= 32", "a session store can be built with a short "+pn)
 	}
+	// the key list handed to the store constructors consists of the two checked parameters only
+	for _, ci := range callsIn(fn) {
+		name := calleeName(ci)
+		var keys ssa.Value
+		switch name {
+		case sessPkg + ".NewCookieStore":
+			keys = arg(ci, 0)
+		case sessPkg + ".NewFilesystemStore":
+			keys = arg(ci, 1)
+		default:
+			continue
+		}
+		elems, ok := sliceLitElems(keys)
+		good := ok
+		for _, e := range elems {
+			if strip(e) != ssa.Value(fn.Params[0]) && strip(e) != ssa.Value(fn.Params[1]) {
+				good = false
+			}
+		}
+		c.Check(good, rule, "InitStore "+name[strings.LastIndex(name, ".")+1:]+" key list", ci.Pos(), "the store's keys are the length-checked sessionKey and encryptionKey only", "the session store is built with keys other than the two length-checked parameters: cookies signed with a key that was never checked for its length are accepted")
+	}
 	_ = token.NoPos
 	c.Floor(rule, 5, "3 token generators + 2 session keys")
 }
